@@ -96,7 +96,11 @@ def install_compile_memo(sm, clock):
     real_compile = mtemplate._compile
 
     def _compile(template, text, filename, generate_magic_comment):
-        k = (text, filename, template.uri, template.module_id, generate_magic_comment, clock.now)
+        opts = tuple(
+            repr(getattr(template, a, None))
+            for a in ("strict_undefined", "enable_loop", "default_filters", "buffer_filters", "imports", "future_imports", "input_encoding", "preprocessor", "lexer_cls", "disable_unicode")
+        )
+        k = (text, filename, template.uri, template.module_id, generate_magic_comment, clock.now, opts)
         r = memo.get(k)
         if r is None:
             r = memo[k] = real_compile(template, text, filename, generate_magic_comment)
